@@ -32,9 +32,14 @@ def _bump(name):
         SINK.count("contract:" + name)
 
 
+CONTEXT = None   # the driver's current client call (so that a contract witness can be replayed)
+
+
 def _emit(found, case):
     if SINK is None:
         return
+    if CONTEXT:
+        case = dict(CONTEXT, **{k: v for k, v in case.items() if k not in CONTEXT})
     for mon, obs in found:
         SINK.violation(mon, case, observed=obs, via="contract")
 
